@@ -10,6 +10,7 @@
 package c04
 
 import (
+	"net"
 	"context"
 	"encoding/json"
 	"fmt"
@@ -922,6 +923,24 @@ func routeCase(rt *rapid.T, c *cfgSpec, q *reqSpec) {
 	rs, err := router.NewRouters(toConfig(c, true))
 	if err != nil {
 		ev.Fail(rt, partModel, "build/valid-config-rejected", "NewRouters rejected a valid configuration: %v; %s", err, desc())
+	}
+	// "deterministically": what this request gets must not depend on what the table was asked before. In half of the
+	// cases the same table first answers 1..3 requests for the same host name under OTHER ports (or none) - the lookups a
+	// table sees in service; the oracle below is the plain model, which knows no history.
+	if n := rapid.IntRange(0, 3).Draw(rt, "siblingLookupsBefore"); n > 0 && rapid.Bool().Draw(rt, "withSiblingLookups") {
+		hostOnly := q.Host
+		if h, _, err := net.SplitHostPort(q.Host); err == nil {
+			hostOnly = h
+		}
+		for i := 0; i < n; i++ {
+			sib := *q
+			sib.Host = hostOnly
+			if p := rapid.SampledFrom([]string{"", "80", "8080", "9", "443"}).Draw(rt, "siblingPort"); p != "" {
+				sib.Host = net.JoinHostPort(hostOnly, p)
+			}
+			_ = lookup(rs, &sib)
+		}
+		ev.Class(partModel, "lookups-for-the-same-host-under-other-ports-before")
 	}
 	got := lookup(rs, q)
 
